@@ -9,5 +9,13 @@ pub broadcast proof fn lemma_or_zero(a: u16, b: u8)
 {
     assert(((a | (b as u16)) == 0) <==> (a == 0 && b == 0)) by (bit_vector);
 }
+
+// the long-form bit of a length byte: b >> 7 is 1 exactly for b >= 128
+pub broadcast proof fn lemma_shr7(b: u8)
+    ensures
+        #[trigger] (b >> 7) == (if b >= 128 { 1u8 } else { 0u8 }),
+{
+    assert((b >> 7) == (if b >= 128 { 1u8 } else { 0u8 })) by (bit_vector);
+}
 } // verus!
 } // mod bitlemmas
